@@ -168,6 +168,30 @@ func (e *descEnv) desc(v ssa.Value, depth int) string {
 		return "(" + e.desc(x.X, depth+1) + x.Op.String() + e.desc(x.Y, depth+1) + ")"
 	case *ssa.Global:
 		return x.Name()
+	case *ssa.Phi:
+		return "?phi:" + x.Name()
+	case *ssa.Lookup:
+		return "lookup(" + e.desc(x.X, depth+1) + "," + e.desc(x.Index, depth+1) + ")"
+	case *ssa.MakeMap:
+		return "makemap(" + x.Type().String() + ")"
+	case *ssa.MakeChan:
+		return "makechan(" + x.Type().String() + ")"
+	case *ssa.FreeVar:
+		// the captured variable of the enclosing function
+		if par := x.Parent().Parent(); par != nil {
+			for _, b := range par.Blocks {
+				for _, ins := range b.Instrs {
+					if mc, ok := ins.(*ssa.MakeClosure); ok && mc.Fn == x.Parent() {
+						for j, fv := range x.Parent().FreeVars {
+							if fv == x {
+								return "^" + e.desc(mc.Bindings[j], depth+1)
+							}
+						}
+					}
+				}
+			}
+		}
+		return "?freevar"
 	}
 	return "?"
 }
@@ -256,7 +280,11 @@ func (e *descEnv) condFacts(c ssa.Value, want bool, depth int) []cfact {
 		}
 		return out
 	}
-	return nil
+	if _, isK := c.(*ssa.Const); isK {
+		return nil
+	}
+	// any other boolean value (a field, a map lookup, a parameter): the value itself is the atom
+	return []cfact{{e.desc(c, 0), want}}
 }
 
 // blockFacts: facts established by the dominating branches of the block.
